@@ -28,7 +28,7 @@ import json
 from pathlib import Path
 
 from . import norm
-from .model import real_body, u
+from .model import Class, real_body, u
 
 BUILTIN_SELF_MATCH = {"bool", "bytearray", "bytes", "dict", "float", "frozenset", "int", "list", "set", "str", "tuple"}
 
@@ -387,8 +387,6 @@ def strip_tail_return(stmts):
                 elif isinstance(v, ast.AST):
                     yield from own([v])
     nodes = list(own(stmts))
-    if any(isinstance(n, (ast.Yield, ast.YieldFrom)) for n in nodes):
-        return stmts
     if any(isinstance(n, ast.Return) and n.value is not None and not (isinstance(n.value, ast.Constant) and n.value.value is None) for n in nodes):
         return stmts
 
@@ -489,6 +487,7 @@ class Inliner:
         self.lookup = lookup
         self.depth = depth
         self.counter = 0
+        self.allow_gen = False      # set for the one tail call `return gen_helper(..)` (tail_generator_delegation)
 
     def expand(self, call: ast.Call, mode: str, target, stmt, d: int, stack):
         """mode: 'expr' (value dropped), 'assign' (target stmt template), 'return'"""
@@ -500,7 +499,7 @@ class Inliner:
         is_super = isinstance(call.func, ast.Attribute) and isinstance(call.func.value, ast.Call) and u(call.func.value.func) == "super"
         if callee.name in stack and not is_super:        # (super().m() inside m ascends the MRO: no recursion)
             return None
-        if _contains(callee, (ast.Yield, ast.YieldFrom, ast.Await)):
+        if _contains(callee, (ast.Yield, ast.YieldFrom, ast.Await)) and not (self.allow_gen and mode == "return" and not _contains(callee, (ast.Await,))):
             return None
         if callee.args.vararg:
             # f(a, *rest) called as f(x, *ys): rest is ys (one starred argument in last position, nothing else for the vararg)
@@ -577,7 +576,9 @@ class Inliner:
         try:
             body = single_exit(body, on_return)
         except NoCanon:
-            return None
+            if mode != "return":
+                return None
+            # `return f(..)`: the callee's returns are the caller's returns wherever they sit
         body = self.rec(pre + body, d - 1, stack + (callee.name,))
         for s in body:
             for n in ast.walk(s):
@@ -866,6 +867,28 @@ class Inliner:
         loop = ast.For(target=g.target, iter=g.iter, body=body, orelse=[])
         init = ast.Assign(targets=[tgt], value=ast.List(elts=[], ctx=ast.Load()))
         return [ast.fix_missing_locations(ast.copy_location(x, s)) for x in (init, loop)]
+
+    def tail_generator_delegation(self, b, stack):
+        """def f(..): <prefix>; return g(..)   with g a generator helper and no other valued return / yield in f: f hands out g's
+        generator, so f is the generator `<prefix>; <body of g>` (up to when the prefix runs: at the call or at the first next())"""
+        for _ in range(3):
+            if not b or not isinstance(b[-1], ast.Return) or not isinstance(b[-1].value, ast.Call):
+                return b
+            r = self.lookup(b[-1].value)
+            if r is None or not _contains(r[0], (ast.Yield, ast.YieldFrom)):
+                return b
+            own = [n for s_ in b[:-1] for n in ast.walk(s_) if not isinstance(s_, (ast.FunctionDef, ast.ClassDef))]
+            if any(isinstance(n, (ast.Yield, ast.YieldFrom)) or (isinstance(n, ast.Return) and n.value is not None) for n in own):
+                return b
+            self.allow_gen = True
+            try:
+                body = self.expand(b[-1].value, "return", None, b[-1], 1, stack)
+            finally:
+                self.allow_gen = False
+            if body is None:
+                return b
+            b = b[:-1] + body
+        return b
 
     def rec(self, stmts, d, stack):
         out = []
@@ -1591,6 +1614,53 @@ class Canon:
             scan(m.tree, False)
         return set() if "*" in other else ctor - other
 
+    def fold_enum_tests(self, stmts, module):
+        """E.A == E.B between two members of one Enum class of the program (distinct literal values) is a constant; an `if` /
+        conditional expression on a constant keeps the branch taken"""
+        def member(e):
+            if not (isinstance(e, ast.Attribute) and isinstance(e.value, (ast.Name, ast.Attribute))):
+                return None
+            c = module.resolve(e.value)
+            if not isinstance(c, Class) or not any(u(b).split(".")[-1] in ("Enum", "IntEnum", "StrEnum", "Flag") for b in c.node.bases):
+                return None
+            vals = {k: v.value for k, v in c.class_assigns.items() if isinstance(v, ast.Constant)}
+            if e.attr not in vals or len(set(map(repr, vals.values()))) != len(vals):
+                return None
+            return c.qualname, e.attr
+
+        class F(ast.NodeTransformer):
+            def visit_Compare(self, node):
+                self.generic_visit(node)
+                if len(node.ops) == 1 and isinstance(node.ops[0], (ast.Eq, ast.NotEq, ast.Is, ast.IsNot)):
+                    a, b = member(node.left), member(node.comparators[0])
+                    if a is not None and b is not None and a[0] == b[0]:
+                        return ast.copy_location(ast.Constant((a[1] == b[1]) == isinstance(node.ops[0], (ast.Eq, ast.Is))), node)
+                return node
+
+            def visit_IfExp(self, node):
+                self.generic_visit(node)
+                if isinstance(node.test, ast.Constant) and isinstance(node.test.value, bool):
+                    return node.body if node.test.value else node.orelse
+                return node
+
+            def visit_FunctionDef(self, node):
+                return node
+
+        def block(b):
+            out = []
+            for s_ in b:
+                if not isinstance(s_, (ast.FunctionDef, ast.AsyncFunctionDef, ast.ClassDef)):
+                    s_ = F().visit(s_)
+                    _recurse_blocks(s_, block)
+                if isinstance(s_, ast.If) and isinstance(s_.test, ast.Constant) and isinstance(s_.test.value, bool):
+                    out += [x for x in (s_.body if s_.test.value else s_.orelse)]
+                    continue
+                out.append(s_)
+            return out
+        if not any(isinstance(n, ast.Compare) for s_ in stmts for n in ast.walk(s_)):
+            return stmts
+        return block(stmts)
+
     # ---- class knowledge for match lowering
     def _match_args(self, module, fn=None):
         # names imported inside the function body (`from hugr.ext import ExplicitBound`)
@@ -1879,7 +1949,11 @@ class Canon:
         b = inline_guard_helpers(b, look)         # if not helper(..): raise ..  with a boolean helper that returns from inside a loop
         b = lift_walrus(lift_ifexp(b))
         inl = Inliner(look)
+        b = inl.tail_generator_delegation(b, (fn.name,))
         b = inl.rec(b, inl.depth, (fn.name,))
+        b2 = inl.tail_generator_delegation(b, (fn.name,))      # .. reached through a plain helper that was just inlined
+        if b2 is not b:
+            b = inl.rec(lift_walrus(lift_ifexp(b2)), inl.depth, (fn.name,))
         b = self._inline_unknown_constants(b, module, fn)      # .. those read by the helpers that were just inlined
         b = norm.merge_display_building(b)
         b = self._project_helper_objects(b, module)
@@ -1889,6 +1963,7 @@ class Canon:
         b = norm.unroll_literal_loops(b)
         b = norm.map_pushdown(norm.extend_to_augassign(b), pure_calls=_PURE_EXT)
         b = norm.fold_none_tests(b)             # `if count is not None` on a count a helper just computed
+        b = self.fold_enum_tests(b, module)
         b = self.call_layout(b, module, cls)
         b = polarity(b)
         b = or_default(b)
